@@ -4,6 +4,7 @@ import (
 	"fmt"
 	"go/types"
 	"strings"
+	"unsafe"
 
 	"golang.org/x/tools/go/ssa"
 )
@@ -88,6 +89,51 @@ func (in *Interp) makeExternals() map[string]extFn {
 			panic(pathEnd{"blocked", "WaitGroup.Wait with non-zero counter"})
 		}
 		return nil
+	}
+	// ----- syscall.Syscall(SYS_RECVMSG, fd, &msghdr, flags): the iovec list is
+	// decoded from the (engine) heap and handed, as slices aliasing the
+	// caller's buffers, to the harness's model of the kernel
+	// (//verif:intercept syscall.recvmsg=<fn>(fd uintptr, bufs [][]byte) (int, syscall.Errno)) -----
+	m["syscall.Syscall"] = func(fr *frame, a []Value) Value {
+		trap := in.concreteInt(a[0], "system call number")
+		if trap != 47 { // SYS_RECVMSG on linux/amd64
+			panic(engineErr{fmt.Sprintf("syscall.Syscall(%d) is not modelled", trap)})
+		}
+		model, ok := in.redir["syscall.recvmsg"]
+		if !ok {
+			panic(engineErr{"recvmsg(2) reached but the harness declares no model (//verif:intercept syscall.recvmsg=...)"})
+		}
+		up, ok := a[2].(UnsafePtr)
+		if !ok {
+			panic(engineErr{"recvmsg: msghdr argument is not a pointer"})
+		}
+		msg := (*up.P.(*Value)).(Struct)
+		// linux/amd64 Msghdr: Name, Namelen, Pad_cgo_0, Iov, Iovlen, Control, Controllen, Flags, Pad_cgo_1
+		n := int(in.concreteInt(msg[4], "msghdr.Iovlen"))
+		var bufs Slice
+		if n > 0 {
+			iov0, ok := msg[3].(*Value)
+			if !ok || iov0 == nil {
+				panic(runtimeError("recvmsg: EFAULT (nil iovec pointer with iovlen > 0)"))
+			}
+			iovs := unsafe.Slice(iov0, n)
+			for i := range iovs {
+				iv := iovs[i].(Struct)
+				l := int(in.concreteInt(iv[1], "iovec.Len"))
+				base, _ := iv[0].(*Value)
+				if l == 0 || base == nil {
+					bufs = append(bufs, Slice{})
+					continue
+				}
+				bufs = append(bufs, Slice(unsafe.Slice(base, l)))
+			}
+		}
+		if bufs == nil {
+			bufs = Slice{}
+		}
+		res := in.callSSA(fr, fr.callPos, model, []Value{a[1], bufs}, nil).(Tuple)
+		cnt := res[0].(*Term)
+		return Tuple{cnt, tc.BV(64, 0), res[1]}
 	}
 	// ----- sync.Cond: field 1 is L. Wait = register, L.Unlock, sleep until a
 	// Broadcast/Signal that follows the registration, L.Lock -----
